@@ -11,6 +11,8 @@ import Rl.Lemmas.EditorSafe
 import Rl.Lemmas.EditorSafe2
 import Rl.Lemmas.EditorRead
 import Rl.Lemmas.EditorNext
+import Rl.Lemmas.EditorReplaceChar
+import Rl.Lemmas.EditorUndoSafe
 import Rl.Lemmas.EditorFrame
 open Rl
 
@@ -81,10 +83,13 @@ theorem C17_decoder_io_only_at_end (i : Input) (sea : Bool) (h : 36 ≤ i.size) 
       `Esc .` panics — remote, but a genuine panic of the real code (finding D-redo-len);
     * in vi mode a `YankPop` bound by the application underflows `end - yank_size` after `p`/`P`
       (the cursor is moved back over the last pasted cluster).
-    Proved instead: `C17_editor_no_panic_partial` (the whole read — every command but `Undo`,
-    `YankPop`, `ReplaceChar`, all sub-loops, the main loop by induction on the fuel — GIVEN the named
-    open obligations `C17_Open`), `C17_next_safe_emacs` (the `next_cmd` obligation in emacs mode) and
-    `C17_editor_no_panic_emacs`. -/
+    Proved instead: `C17_editor_no_panic_partial` — **the only panic of a whole read is D43**, and
+    the final state exhibits it (a last insertion longer than 65535 bytes): `next_cmd` in BOTH modes
+    (`C17_next_cmd`: the `unreachable!()`s of `vi_num_args` and `Cmd::redo` are unreachable), every
+    command, all sub-loops, the main loop by induction on the fuel — GIVEN the open obligations
+    `C17_Open` (`Undo`; `YankPop`; `ReplaceChar` with a count above `u16`, which does not exist in the
+    code), a stable segmenter, an indent size that fits `u8`, and the completer contract with `start`
+    on a boundary. -/
 def C17_editor_no_panic_statement : Prop :=
   ∀ (S : Segmenter) (U : UData) (cfg : EdCfg) (left right : Text) (inp : Input),
     (∀ t, cfg.validator t ≠ .panic) → cfg.hinterPanicAt = none →
@@ -313,41 +318,104 @@ theorem C17_nextCmd_keeps_wf (S : Segmenter) (U : UData) (cfg : EdCfg) (fuel : N
     (s s' : Ed) (c : Cmd) (h : EdWF cfg s) (hr : nextCmd S U cfg fuel sea iep s = .ok (c, s')) : EdWF cfg s' :=
   h.of_coreNC ((keeps_nextCmd S U cfg fuel sea iep).ok hr)
 
-/-- the obligations of the whole-read theorem that are NOT discharged (each names a panic site of
-    the real code; see `C17_covered` and `C17_next_safe_emacs`):
-    * `next`: `next_cmd` does not panic.  Open in vi mode (`vi_num_args`' `unreachable!()` needs the
-      sign invariant of the numeric argument through the digit loops) and for the `.`-redo of `R`
-      after an insertion of more than 65535 bytes (`RepeatCount::try_from(len).unwrap()`,
-      keymap.rs — a genuine, if remote, panic of the real code: D-redo-len);
-    * `exec`: `Undo`, `YankPop`, `ReplaceChar` are safe from the read invariant. -/
+/-- the obligations of the whole-read theorem that are NOT discharged (`next_cmd` is: `C17_next_cmd`):
+    * `undo`: `Undo` is safe from the read invariant (needs the C05 log invariant carried through
+      every command and the abort paths of the sub-loops);
+    * `yankPop`: `YankPop` is safe (cross-step fact "the cursor still stands right after the yanked
+      text"; false in vi mode after `p`/`P` — there it is reachable only through an application
+      binding of `YankPop`);
+    * `count`: a `ReplaceChar` with a count above 65535 is safe — counts are `RepeatCount = u16` in
+      the code, so this case does not exist there; in the model it needs the keymap's bound on
+      counts carried to the command (`ReplaceChar` with `n ≤ 65535` is proved: `rsafe_replaceChar`). -/
 structure C17_Open (S : Segmenter) (U : UData) (cfg : EdCfg) : Prop where
-  next : NextSafe S U cfg
-  exec : ∀ cmd s, C17_covered cmd = false → RdInv cfg s → RSafe cfg (execute S U cfg cmd) s
+  undo : ∀ n s, RdInv cfg s → RSafe cfg (execute S U cfg (.undo n)) s
+  yankPop : ∀ s, RdInv cfg s → RSafe cfg (execute S U cfg .yankPop) s
+  count : ∀ n c s, 65535 < n → RdInv cfg s → RSafe cfg (execute S U cfg (.replaceChar n c)) s
 
-/-- every `execute` step is safe from the read invariant, given the three open commands -/
-theorem C17_exec_safe (S : Segmenter) (U : UData) (cfg : EdCfg) (hv : ∀ t, cfg.validator t ≠ .panic)
+/-- every `execute` step is safe from the read invariant, given the open obligations; the segmenter
+    is stable (cutting a text at its own cluster boundaries does not change the clusters: true of
+    the UAX #29 segmenter, `uaxSeg_stable`) -/
+theorem C17_exec_safe (S : Segmenter) (U : UData) (cfg : EdCfg) (hS : S.Stable) (hv : ∀ t, cfg.validator t ≠ .panic)
     (hnp : cfg.hinterPanicAt = none) (hind : cfg.indentSize ≤ 255) (ho : C17_Open S U cfg) :
     ExecSafe S U cfg := by
   intro cmd s h
   by_cases hc : C17_covered cmd = true
   · have hu : IsUndo cmd = false := by
       cases cmd <;> first | rfl | (simp [C17_covered] at hc)
-    exact rsafe_of cfg (C17_execute_safe S U cfg hv hnp hind cmd hc s h.1) (keeps_grow_execute S U cfg cmd hu) h.2
-  · exact ho.exec cmd s (by simpa using hc) h
+    exact rsafe_of cfg (C17_execute_safe S U cfg hv hnp hind cmd hc s h.1) (keeps_grow_execute S U cfg cmd hu)
+      (keeps_inp_execute S U cfg cmd) h
+  · cases cmd <;> simp only [C17_covered, not_true_eq_false] at hc
+    case undo n => exact ho.undo n s h
+    case yankPop => exact ho.yankPop s h
+    case replaceChar n c =>
+      by_cases hn : n ≤ 65535
+      · exact rsafe_replaceChar S U cfg hS hnp c n hn h
+      · exact ho.count n c s (by omega) h
 
-/-- **The whole read never ends with the panic outcome** — for helpers that do not panic, an indent
-    size that fits the code's `u8`, a completer that reports a start on a character boundary at or
-    before the cursor, a kill ring satisfying its bounds invariant, and GIVEN the open obligations
-    `C17_Open`.  Covers: every command but `Undo` / `YankPop` / `ReplaceChar`, circular and list
-    completion, incremental search, the dispatch loop, quoted insert, suspend, the main loop (by
-    induction on the fuel; running out of fuel is the outcome `fuel`, not `panic`), the initial
-    text and the final cursor move. -/
+/-- **`ReplaceChar` with a count that fits the code's `RepeatCount`** is safe for a stable
+    segmenter: the deleted text has at most `n` clusters, so `RepeatCount::try_from(count).unwrap()`
+    cannot fail. -/
+theorem C17_replaceChar_safe (S : Segmenter) (U : UData) (cfg : EdCfg) (hS : S.Stable)
+    (hnp : cfg.hinterPanicAt = none) (c : Char) (n : Nat) (hn : n ≤ 65535) (s : Ed) (h : RdInv cfg s) :
+    RSafe cfg (execute S U cfg (.replaceChar n c)) s :=
+  rsafe_replaceChar S U cfg hS hnp c n hn h
+
+/-- **`YankPop` is safe whenever the text of the last yank still stands right before the cursor**
+    (`PopOK`: what an emacs-mode `Yank` / `YankPop` leaves behind).  The step that remains open is
+    carrying `PopOK` across the commands in between. -/
+theorem C17_yankPop_safe_of_popOK (S : Segmenter) (U : UData) (cfg : EdCfg) (hnp : cfg.hinterPanicAt = none)
+    (s : Ed) (h : RdInv cfg s) (hp : PopOK s) : RSafe cfg (execute S U cfg .yankPop) s :=
+  rsafe_yankPop S U cfg hnp h hp
+
+/-- **`Undo` is safe whenever the C05 log invariant holds** (the undo stack replays to the text of
+    the line): no panic (`C05_undo_past_text`), the read invariant holds again (cursor on a boundary,
+    line growable — `undoLoop_wf_grow`), and so does the log invariant.  What remains open is carrying
+    the log invariant through every other command and through the abort paths of the sub-loops
+    (`C05_abort_transparent_statement`). -/
+theorem C17_undo_safe_of_log (S : Segmenter) (U : UData) (cfg : EdCfg) (hnp : cfg.hinterPanicAt = none)
+    (n : Nat) (s : Ed) (h : RdInv cfg s) (hl : UndoLogInv s) :
+    wp (execute S U cfg (.undo n)) (fun _ s' => RdInv cfg s' ∧ UndoLogInv s') PE s :=
+  rsafe_undo S U cfg hnp n h hl
+
+/-- **`next_cmd`, emacs and vi** (helpers that do not panic): from a state whose pending numeric
+    argument is not negative in vi mode it returns in such a state — so `vi_num_args`'
+    `unreachable!()` is unreachable, like the ones of `Cmd::redo` (only repeatable commands are
+    re-done) — and its ONLY panic is known finding D43: `RepeatCount::try_from(last_insert.len())
+    .unwrap()` when the command re-done is vi's `R` (by `.` or through an application binding) and the
+    last insertion is longer than 65535 bytes; the state it exits with then shows such an insertion. -/
+theorem C17_next_cmd (S : Segmenter) (U : UData) (cfg : EdCfg) (hnp : cfg.hinterPanicAt = none)
+    (fuel : Nat) (sea iep : Bool) (s : Ed) (h : NumI cfg s) :
+    (∀ c s', nextCmd S U cfg fuel sea iep s = .ok (c, s') → NumI cfg s') ∧
+    (∀ o s', nextCmd S U cfg fuel sea iep s = .error (o, s') → o = .panic → D43 s') := by
+  have hn := (npi_nextCmd S U cfg hnp fuel sea iep).h s h
+  constructor
+  · intro c s' hr; rw [hr] at hn; exact hn
+  · intro o s' hr; rw [hr] at hn; exact hn
+
+/-- **The only panic of a whole read is D43** — for helpers that do not panic, an indent size that
+    fits the code's `u8`, a completer that reports a start on a character boundary at or before the
+    cursor, and GIVEN the open obligations `C17_Open` (`Undo` / `YankPop` / `ReplaceChar`).  If the
+    read ends with the panic outcome, the state it ends in has a last insertion longer than 65535
+    bytes (and the panic was the re-do of vi's `R`).  Covers `next_cmd` in both modes, every other
+    command, circular and list completion, incremental search, the dispatch loop, quoted insert,
+    suspend, the main loop (by induction on the fuel; running out of fuel is the outcome `fuel`, not
+    `panic`), the initial text and the final cursor move. -/
 theorem C17_editor_no_panic_partial (S : Segmenter) (U : UData) (cfg : EdCfg) (left right : Text) (inp : Input)
     (hv : ∀ t, cfg.validator t ≠ .panic) (hnp : cfg.hinterPanicAt = none)
     (hcomp : ∀ t p, IsBoundary t (cfg.completer t p).1 ∧ (cfg.completer t p).1 ≤ p)
-    (hind : cfg.indentSize ≤ 255) (ho : C17_Open S U cfg) :
+    (hind : cfg.indentSize ≤ 255) (hS : S.Stable) (ho : C17_Open S U cfg) :
+    (readline S U cfg (KillRing.new 60) left right inp).1 = .panic →
+      D43 (readline S U cfg (KillRing.new 60) left right inp).2 :=
+  readline_panic_only_D43 S U cfg ⟨hnp, C17_exec_safe S U cfg hS hv hnp hind ho, hcomp⟩ _ (RingOK.new 60) _ _ _
+
+/-- the same as a no-panic statement: a read that does not end in a D43 state does not panic -/
+theorem C17_editor_no_panic_of_no_D43 (S : Segmenter) (U : UData) (cfg : EdCfg) (left right : Text) (inp : Input)
+    (hv : ∀ t, cfg.validator t ≠ .panic) (hnp : cfg.hinterPanicAt = none)
+    (hcomp : ∀ t p, IsBoundary t (cfg.completer t p).1 ∧ (cfg.completer t p).1 ≤ p)
+    (hind : cfg.indentSize ≤ 255) (hS : S.Stable) (ho : C17_Open S U cfg)
+    (hd : ¬ D43 (readline S U cfg (KillRing.new 60) left right inp).2) :
     (readline S U cfg (KillRing.new 60) left right inp).1 ≠ .panic :=
-  readline_no_panic S U cfg ⟨hnp, ho.next, C17_exec_safe S U cfg hv hnp hind ho, hcomp⟩ _ (RingOK.new 60) _ _ _
+  fun hp => hd (C17_editor_no_panic_partial S U cfg left right inp hv hnp hcomp hind hS ho hp)
 
 /-- every command but vi's `R` (`Replace(ForwardChar 0, None)`, whose redo converts the length of
     the last insertion to a `RepeatCount`) can be re-done whatever the last insertion was -/
@@ -369,25 +437,12 @@ theorem C17_bindOK (c : Cmd) (h : c ≠ .replace (.forwardChar 0) none) : BindOK
   case selfInsert n ch =>
     cases li <;> exact ⟨_, rfl⟩
 
-/-- **`next_cmd` never panics in emacs mode**, for helpers that do not panic and a binding table
-    that does not bind vi's `R` command: reading keys, numeric arguments (`M-digit`, `M--`), custom
-    single-key and key-sequence bindings (with re-do of the bound command), `C-x` sequences,
-    character search, bracketed paste. -/
+/-- **`next_cmd` never panics at all in emacs mode** when the binding table does not bind vi's `R`
+    command (then not even D43 is reachable through `next_cmd`) -/
 theorem C17_next_safe_emacs (S : Segmenter) (U : UData) (cfg : EdCfg) (hvi : cfg.vi = false)
     (hnp : cfg.hinterPanicAt = none) (hb : ∀ b ∈ cfg.binds, b.2 ≠ .replace (.forwardChar 0) none) :
-    NextSafe S U cfg :=
+    ∀ fuel sea iep s o s', nextCmd S U cfg fuel sea iep s = .error (o, s') → o ≠ .panic :=
   nextSafe_emacs S U cfg hvi hnp (fun b hm => C17_bindOK b.2 (hb b hm))
-
-/-- **Emacs mode: the whole read never panics**, given only that the three open commands are safe. -/
-theorem C17_editor_no_panic_emacs (S : Segmenter) (U : UData) (cfg : EdCfg) (left right : Text) (inp : Input)
-    (hvi : cfg.vi = false)
-    (hv : ∀ t, cfg.validator t ≠ .panic) (hnp : cfg.hinterPanicAt = none)
-    (hcomp : ∀ t p, IsBoundary t (cfg.completer t p).1 ∧ (cfg.completer t p).1 ≤ p)
-    (hind : cfg.indentSize ≤ 255) (hb : ∀ b ∈ cfg.binds, b.2 ≠ .replace (.forwardChar 0) none)
-    (hexec : ∀ cmd s, C17_covered cmd = false → RdInv cfg s → RSafe cfg (execute S U cfg cmd) s) :
-    (readline S U cfg (KillRing.new 60) left right inp).1 ≠ .panic :=
-  C17_editor_no_panic_partial S U cfg left right inp hv hnp hcomp hind
-    ⟨C17_next_safe_emacs S U cfg hvi hnp hb, hexec⟩
 
 /-- the completer contract of the full statement (`start ≤ cursor`) is not enough: a start inside a
     character makes `line.replace(start..pos, …)` panic (String::replace_range off a boundary) -/
